@@ -12,72 +12,6 @@ namespace BVMat
 section field
 variable {α : Type} [Field α] [LinearOrder α] [IsStrictOrderedRing α]
 
-/-! ### the reductions are the extrema -/
-
-theorem maxL_ge_init (a : α) (l : List α) : a ≤ maxL a l := by
-  induction l generalizing a with
-  | nil => exact le_refl _
-  | cons x l ih =>
-    simp only [maxL, List.foldl_cons]
-    by_cases h : a < x
-    · rw [if_pos h]; exact le_trans h.le (ih x)
-    · rw [if_neg h]; exact ih a
-
-/-- `maxL a l` is an element of `a :: l` and bounds all of them -/
-theorem maxL_spec (a : α) (l : List α) :
-    maxL a l ∈ a :: l ∧ ∀ x ∈ a :: l, x ≤ maxL a l := by
-  induction l generalizing a with
-  | nil => exact ⟨List.mem_cons_self, fun x hx => by simp at hx; exact hx.le⟩
-  | cons y l ih =>
-    simp only [maxL, List.foldl_cons]
-    by_cases h : a < y
-    · rw [if_pos h]
-      obtain ⟨hm, hb⟩ := ih y
-      refine ⟨List.mem_cons_of_mem _ hm, ?_⟩
-      intro x hx
-      rcases List.mem_cons.mp hx with rfl | hx
-      · exact le_trans h.le (hb y List.mem_cons_self)
-      · exact hb x hx
-    · rw [if_neg h]
-      obtain ⟨hm, hb⟩ := ih a
-      refine ⟨?_, ?_⟩
-      · rcases List.mem_cons.mp hm with h1 | h1
-        · show _ ∈ _; rw [show List.foldl _ a l = a from h1]; exact List.mem_cons_self
-        · exact List.mem_cons_of_mem _ (List.mem_cons_of_mem _ h1)
-      · intro x hx
-        rcases List.mem_cons.mp hx with rfl | hx
-        · exact hb _ List.mem_cons_self
-        · rcases List.mem_cons.mp hx with rfl | hx
-          · exact le_trans (not_lt.mp h) (hb a List.mem_cons_self)
-          · exact hb x (List.mem_cons_of_mem _ hx)
-
-theorem minL_spec (a : α) (l : List α) :
-    minL a l ∈ a :: l ∧ ∀ x ∈ a :: l, minL a l ≤ x := by
-  induction l generalizing a with
-  | nil => exact ⟨List.mem_cons_self, fun x hx => by simp at hx; exact hx.ge⟩
-  | cons y l ih =>
-    simp only [minL, List.foldl_cons]
-    by_cases h : y < a
-    · rw [if_pos h]
-      obtain ⟨hm, hb⟩ := ih y
-      refine ⟨List.mem_cons_of_mem _ hm, ?_⟩
-      intro x hx
-      rcases List.mem_cons.mp hx with rfl | hx
-      · exact le_trans (hb y List.mem_cons_self) h.le
-      · exact hb x hx
-    · rw [if_neg h]
-      obtain ⟨hm, hb⟩ := ih a
-      refine ⟨?_, ?_⟩
-      · rcases List.mem_cons.mp hm with h1 | h1
-        · show _ ∈ _; rw [show List.foldl _ a l = a from h1]; exact List.mem_cons_self
-        · exact List.mem_cons_of_mem _ (List.mem_cons_of_mem _ h1)
-      · intro x hx
-        rcases List.mem_cons.mp hx with rfl | hx
-        · exact hb _ List.mem_cons_self
-        · rcases List.mem_cons.mp hx with rfl | hx
-          · exact le_trans (hb a List.mem_cons_self) (not_lt.mp h)
-          · exact hb x (List.mem_cons_of_mem _ hx)
-
 /-! ### they commute with the standardising map -/
 
 theorem colMax_map_standardise {s : α} (hs : 0 < s) {m : α} {c : Col α} :
@@ -144,87 +78,12 @@ theorem colMin_of_present_nil {c : Col α} (h : present c = []) : colMin c = non
   rw [h]
   by_cases hc : c.all Option.isSome = true <;> simp [hc]
 
-/-! ### constant columns -/
-
-theorem sumL_const {l : List α} {a : α} (hc : ∀ x ∈ l, x = a) : sumL l = (l.length : α) * a := by
-  induction l with
-  | nil => simp [sumL]
-  | cons x l ih =>
-    have hx : x = a := hc x List.mem_cons_self
-    have := ih (fun y hy => hc y (List.mem_cons_of_mem _ hy))
-    simp only [sumL, this, hx, List.length_cons, Nat.cast_succ]
-    ring
-
-theorem meanL_const {l : List α} {a : α} (h : l ≠ []) (hc : ∀ x ∈ l, x = a) : meanL l = a := by
-  unfold meanL
-  rw [sumL_const hc]
-  field_simp [length_cast_ne_zero (α := α) h]
-
-theorem varL_const {l : List α} {a : α} (h : l ≠ []) (hc : ∀ x ∈ l, x = a) : varL l = 0 := by
-  unfold varL
-  rw [meanL_const h hc]
-  have hz : ∀ y ∈ l.map (fun x => (x - a) * (x - a)), y = 0 := by
-    intro y hy
-    obtain ⟨x, hx, rfl⟩ := List.mem_map.mp hy
-    rw [hc x hx]; ring
-  have hne : l.map (fun x => (x - a) * (x - a)) ≠ [] := by simpa using h
-  exact meanL_const hne hz
-
 end field
 end BVMat
 
 namespace BVMat
 section more
 variable {α : Type} [Field α] [LinearOrder α] [IsStrictOrderedRing α]
-
-/-! ### variance is a mean of squares -/
-
-theorem sumL_nonneg {l : List α} (h : ∀ x ∈ l, 0 ≤ x) : 0 ≤ sumL l := by
-  induction l with
-  | nil => simp [sumL]
-  | cons a l ih =>
-    simp only [sumL]
-    exact add_nonneg (h a List.mem_cons_self) (ih (fun x hx => h x (List.mem_cons_of_mem _ hx)))
-
-theorem sumL_eq_zero {l : List α} (h : ∀ x ∈ l, 0 ≤ x) (h0 : sumL l = 0) : ∀ x ∈ l, x = 0 := by
-  induction l with
-  | nil => intro x hx; cases hx
-  | cons a l ih =>
-    simp only [sumL] at h0
-    have ha := h a List.mem_cons_self
-    have hl := sumL_nonneg (fun x hx => h x (List.mem_cons_of_mem _ hx))
-    have ha0 : a = 0 := by linarith
-    have hl0 : sumL l = 0 := by linarith
-    intro x hx
-    rcases List.mem_cons.mp hx with rfl | hx
-    · exact ha0
-    · exact ih (fun y hy => h y (List.mem_cons_of_mem _ hy)) hl0 x hx
-
-theorem varL_nonneg (l : List α) : 0 ≤ varL l := by
-  unfold varL meanL
-  apply div_nonneg
-  · apply sumL_nonneg
-    intro y hy
-    obtain ⟨x, _, rfl⟩ := List.mem_map.mp hy
-    exact mul_self_nonneg _
-  · exact Nat.cast_nonneg _
-
-/-- variance 0 ⇒ every value equals the mean -/
-theorem eq_mean_of_varL_eq_zero {l : List α} (h : l ≠ []) (hv : varL l = 0) : ∀ x ∈ l, x = meanL l := by
-  unfold varL at hv
-  have hn : ((List.map (fun x => (x - meanL l) * (x - meanL l)) l).length : α) ≠ 0 := by
-    rw [List.length_map]; exact length_cast_ne_zero h
-  have hs : sumL (List.map (fun x => (x - meanL l) * (x - meanL l)) l) = 0 := by
-    unfold meanL at hv
-    rcases div_eq_zero_iff.mp hv with h1 | h1
-    · exact h1
-    · exact absurd h1 hn
-  have hz := sumL_eq_zero (l := List.map (fun x => (x - meanL l) * (x - meanL l)) l)
-    (by intro y hy; obtain ⟨x, _, rfl⟩ := List.mem_map.mp hy; exact mul_self_nonneg _) hs
-  intro x hx
-  have := hz _ (List.mem_map.mpr ⟨x, hx, rfl⟩)
-  have := mul_self_eq_zero.mp this
-  linarith
 
 /-! ### `argmaxGo` returns the first position of the maximum -/
 
@@ -406,9 +265,25 @@ theorem fromNumpyCol_take_perm (sq : α → α) (idx : List Nat) (c : Col α)
       { mat := Np.take idx (fromNumpyCol sq c).mat, loc := (fromNumpyCol sq c).loc,
         scale := (fromNumpyCol sq c).scale } := by
   have hp := take_perm idx c h
-  unfold fromNumpyCol nanstd
-  rw [nanmean_perm hp, nanvar_perm hp]
-  simp only [take_map]
+  have hpp := present_perm hp
+  by_cases hn : present c = []
+  · have hn' : present (Np.take idx c) = [] := by
+      have := hpp.length_eq
+      rw [hn] at this
+      exact List.length_eq_zero_iff.mp this
+    have hall := present_eq_nil hn
+    rw [fromNumpyCol_of_nil sq hn', fromNumpyCol_of_nil sq hn]
+  · have hn' : present (Np.take idx c) ≠ [] := by
+      intro h0
+      have := hpp.length_eq
+      rw [h0] at this
+      exact hn (List.length_eq_zero_iff.mp this.symm)
+    rw [fromNumpyCol_of_ne sq hn', fromNumpyCol_of_ne sq hn]
+    have hm : meanL (present (Np.take idx c)) = meanL (present c) := meanL_perm hpp
+    have hs : scaleOf sq (present (Np.take idx c)) = scaleOf sq (present c) := by
+      unfold scaleOf; rw [varL_perm hpp]
+    rw [hm, hs]
+    simp only [take_map]
 
 end affine
 end BVMat
